@@ -182,7 +182,8 @@ def build_driver():
 
 def build_harness(featset="hac", profile="debug"):
     """always rebuilds from /repo's working tree (cargo decides what is stale)"""
-    tdir = os.path.join(BUILD, "target-" + featset)
+    cov = bool(os.environ.get("VERIF_COV"))   # development aid (tools/coverage.sh): line coverage of /repo by the families; never set by a registered command
+    tdir = os.path.join(BUILD, ("target-cov-" if cov else "target-") + featset)
     lock = os.path.join(HARNESS_DIR, "Cargo.lock")
     if not os.path.exists(lock):
         sh(["cp", os.path.join(REPO, "Cargo.lock"), lock])
@@ -190,7 +191,10 @@ def build_harness(featset="hac", profile="debug"):
     cmd = ["cargo", "build", "--offline", "--no-default-features", "--features", feats, "--target-dir", tdir]
     if profile == "release":
         cmd.append("--release")
-    rc, out, err = sh(cmd, cwd=HARNESS_DIR, timeout=1800)
+    if cov:
+        cmd.insert(1, "+nightly")
+        os.environ.setdefault("LLVM_PROFILE_FILE", os.path.join(BUILD, "cov", "%p-%m.profraw"))
+    rc, out, err = sh(cmd, cwd=HARNESS_DIR, timeout=1800, env={"RUSTFLAGS": "-C instrument-coverage"} if cov else None)
     if rc != 0:
         raise Broken("harness build against %s (features %s)" % (REPO, feats or "none"), (out + err)[-4000:])
     return os.path.join(tdir, profile, "verif-harness")
